@@ -8,6 +8,9 @@ import json, os, re, shutil, subprocess, sys
 def main():
     wt, sub, sid, props = sys.argv[1:5]
     checks = sys.argv[5:]
+    if wt == "RETEST":      # RETEST <seeded dir> - - <checks...>: only re-run checks against a kept change
+        subprocess.run(["python3", "/verif/runner/seedtest.py", sub] + checks)
+        return 0
     src = os.path.join(wt, sub)
     dst = f"/verif/seeded/{sid}"
     os.makedirs(dst, exist_ok=True)
